@@ -638,6 +638,11 @@ func init() { c16.Run = runC16 }
 
 func runC16(w *core.W) {
 	runC16Shadow(w)
+	for i := range methodTypeCases {
+		if w.Mine(i) {
+			c16Methods(w, &methodTypeCases[i])
+		}
+	}
 	r := w.RNG("paths")
 	run := func(c *PathCase, i int) {
 		c16Path(w, c)
@@ -816,3 +821,108 @@ func runC16Shadow(w *core.W) {
 		}
 	}
 }
+
+// MethodTypeCase: caller data whose Go types carry methods (String, Error, MarshalJSON, Len ...). Methods do not change what
+// a value is: a struct is read field by field, a string-keyed map key by key, and slices and maps are handed on unchanged.
+type MethodTypeCase struct {
+	Src  string `json:"src"`
+	Want string `json:"want"` // plain rendering, or "=<name>" for "the caller's value under that name, unchanged"
+}
+
+type labelledRow struct {
+	Name string
+	Qty  int
+	Tags []string
+}
+
+func (r labelledRow) String() string               { return "row:" + r.Name }
+func (r labelledRow) MarshalJSON() ([]byte, error) { return []byte(`"row"`), nil }
+
+type labelledMap map[string]interface{}
+
+func (m labelledMap) String() string { return "labelled map" }
+func (m labelledMap) Error() string  { return "not an error" }
+
+type labelledList []string
+
+func (l labelledList) String() string { return strings.Join(l, "+") }
+func (l labelledList) Len() int       { return 99 }
+
+type labelledInts []int
+
+func (l labelledInts) String() string { return "ints" }
+
+func methodTypeData() map[string]interface{} {
+	return map[string]interface{}{
+		"p": labelledRow{Name: "n1", Qty: 3, Tags: []string{"t"}}, "lm": labelledMap{"k": 1, "name": "x", "in": labelledMap{"j": "deep"}}, "ll": labelledList{"a", "b"}, "li": labelledInts{4, 5},
+		"o":    map[string]interface{}{"p": labelledRow{Name: "n2", Qty: 4}, "lm": labelledMap{"k": 2}, "ll": labelledList{"c"}},
+		"rows": []labelledRow{{Name: "r0", Qty: 1}}, "wd": time.Wednesday,
+		// the zero instant is a time like any other (not null), wherever it sits
+		"zt": time.Time{}, "oz": map[string]interface{}{"zt": time.Time{}}, "tmz": map[string]time.Time{"z": {}}, "hz": struct{ T time.Time }{}, "zts": time.Time{}.In(time.FixedZone("X", 3600)),
+	}
+}
+
+var methodTypeCases = []MethodTypeCase{
+	{"p.Name", `"n1"`}, {"p.Qty", "3"}, {"p.Qty + 1", "4"}, {"p.Tags", "=p.Tags"}, {"p!.Name", `"n1"`}, {"p.Missing ?? 'none'", "ERROR"}, {"this.p.Name", `"n1"`}, {"o.p.Name", `"n2"`}, {"o.p.Qty * 2", "8"},
+	{"lm.k", "1"}, {"lm.name", `"x"`}, {"lm.in.j", `"deep"`}, {"lm.nope ?? 'none'", `"none"`}, {"o.lm.k", "2"}, {"this.lm.k + 1", "2"}, {"lm!.in!.j", `"deep"`},
+	{"[ll]", "=[ll]"}, {"ll", "=ll"}, {"join(ll, '-')", `"a-b"`}, {"includes(ll, 'b')", "true"}, {"o.ll", "=o.ll"}, {"li", "=li"}, {"p", "=p"}, {"lm", "=lm"}, {"[p, lm]", "=[p, lm]"}, {"$v = p, $v.Name", `"n1"`},
+	{"zt", "=zt"}, {"oz.zt", "=zt"}, {"tmz.z", "=zt"}, {"hz.T", "=zt"}, {"this.zt", "=zt"}, {"oz!.zt", "=zt"}, {"oz.zt == null", "false"}, {"tmz.z === null", "false"}, {"oz.zt ?? 'd'", "=zt"}, {"hz.T ?? 'd'", "=zt"},
+	{"year(oz.zt)", "1"}, {"this.zts ?? 'd'", "=zts"}, {"[oz.zt, tmz.z]", "=[zt, zt]"},
+	{"p == null", "false"}, {"lm == null", "false"}, {"ll ?? 'd'", "=ll"}, {"rows", "=rows"},
+}
+
+var c16Methods = core.Mon(c16, "types-with-methods", func(w *core.W, c *MethodTypeCase) {
+	data := methodTypeData()
+	w.Count("method_type_cases")
+	w.Nontrivial("methods:" + c.Src)
+	v, err, panicked, pv := resolveIn(data, c.Src)
+	w.Eval(1)
+	if panicked {
+		w.Violation("types-with-methods", "C16/escaped-panic", c, c.Want, fmt.Sprint(pv), c.Src)
+		return
+	}
+	if c.Want == "ERROR" {
+		if err == nil {
+			w.Violation("types-with-methods", "C16/missing-field-not-refused", c, "an error", show(v), c.Src)
+		}
+		return
+	}
+	if err != nil {
+		w.Violation("types-with-methods", "C16/unexpected-error", c, c.Want, err.Error(), c.Src)
+		return
+	}
+	if strings.HasPrefix(c.Want, "=") {
+		// the caller's own value(s), unchanged
+		fresh := methodTypeData()
+		var want interface{}
+		pick := func(path string) interface{} {
+			var cur interface{} = fresh
+			for _, seg := range strings.Split(path, ".") {
+				switch x := cur.(type) {
+				case map[string]interface{}:
+					cur = x[seg]
+				case labelledRow:
+					cur = x.Tags
+				}
+			}
+			return cur
+		}
+		spec := strings.TrimPrefix(c.Want, "=")
+		if strings.HasPrefix(spec, "[") {
+			var l []interface{}
+			for _, n := range strings.Split(strings.Trim(spec, "[]"), ", ") {
+				l = append(l, pick(n))
+			}
+			want = l
+		} else {
+			want = pick(spec)
+		}
+		if obs.SnapshotValues(v) != obs.SnapshotValues(want) {
+			w.Violation("types-with-methods", "C16/value-not-handed-on-unchanged", c, clipS(obs.SnapshotValues(want), 200), clipS(obs.SnapshotValues(v), 200), c.Src+": slices, maps and structs are handed on unchanged, whatever methods their types carry")
+		}
+		return
+	}
+	if got := renderPlain(v); got != c.Want {
+		w.Violation("types-with-methods", "C16/member-of-a-type-with-methods", c, c.Want, got, c.Src)
+	}
+})
